@@ -250,5 +250,5 @@ fn mol_oracle(c: &MolCase, rec: &Rec, ctx: &Ctx) -> Result<(), String> {
 }
 
 pub fn parts() -> Vec<PartDef> {
-    vec![part("pair", 1_500_000, 60_000_000, pair_strat, pair_oracle), part("molecule", 300_000, 10_000_000, mol_strat, mol_oracle)]
+    vec![part("pair", 12_000_000, 240_000_000, pair_strat, pair_oracle), part("molecule", 2_000_000, 40_000_000, mol_strat, mol_oracle)]
 }
